@@ -259,7 +259,7 @@ def py_violations(c, d):
                 e = inner[-1]
                 ok = ok and e['job'] == -1 and e['loc'] == v['end'] and tz(e['twe']) == tz(v['shift_end'])
                 inner = inner[:-1]
-        ok = ok and all(a['job'] >= 0 for a in inner)
+        ok = ok and all(a['job'] >= 0 for a in inner) and all(0 <= a['loc'] < c['n'] for a in acts)
         if not ok:
             out.append(('VShape', r['v']))
         t_ok, l_ok = sim_route(c, v, acts)
